@@ -504,8 +504,6 @@ HttpResponse Http::request(HttpRequest& request)
 		response.setSockError(socket.errorMsg());
 		return response;
 	}
-	if (chunked)
-		socket << "0\r\n\r\n"; // the body is complete: last chunk
 	
 	String line = socket.readLine();
 	if (!line.ok()) {
@@ -727,12 +725,18 @@ void HttpMessage::useSink(const Shared<HttpSink>& s)
 	_sink->use(this);
 }
 
+// whether the last transfer coding is "chunked": then the chunks frame the body
+static bool endsChunked(const String& transferEncoding)
+{
+	Array<String> codings = transferEncoding.toLowerCase().split(',');
+	return codings.length() > 0 && codings.last().trimmed() == "chunked";
+}
+
 bool HttpMessage::sendHeaders()
 {
 	// a message whose last transfer coding is "chunked" is framed by its chunks alone: no Content-Length next to them
 	// (RFC 7230 3.3.2), whichever of put(), putFile() or the owner set one
-	Array<String> codings = header("Transfer-Encoding").toLowerCase().split(',');
-	if (codings.length() > 0 && codings.last().trimmed() == "chunked")
+	if (endsChunked(header("Transfer-Encoding")))
 		setHeader("Content-Length", String());
 
 	String s;
@@ -756,8 +760,11 @@ bool HttpMessage::write()
 {
 	if (_fileBody)
 		return putFile(_body);
-	else
-		return write((const char*)_body.data(), _body.length()) > 0;
+	bool whole = !_headersSent; // headers and body are written here: the message also ends here
+	bool ok = write((const char*)_body.data(), _body.length()) > 0;
+	if (whole && endsChunked(header("Transfer-Encoding")))
+		*_socket << "0\r\n\r\n"; // last chunk
+	return ok;
 }
 
 void HttpMessage::write(const String& text)
@@ -825,6 +832,7 @@ void HttpMessage::writeFile(const String& path, int begin, int end)
 
 bool HttpMessage::putFile(const String& path, int begin, int end)
 {
+	bool whole = !_headersSent; // headers and body are written here: a chunked message also ends here
 	File file(path);
 	if (!file.exists())
 	{
@@ -883,6 +891,9 @@ bool HttpMessage::putFile(const String& path, int begin, int end)
 	{
 		write("\r\n--" + boundary + "--\r\n");
 	}
+
+	if (whole && endsChunked(header("Transfer-Encoding")))
+		*_socket << "0\r\n\r\n"; // last chunk
 
 	return true;
 }
